@@ -11,6 +11,7 @@ import (
 	"os"
 	"path/filepath"
 	"strconv"
+	"strings"
 	"sync"
 	"sync/atomic"
 	"syscall"
@@ -131,6 +132,8 @@ func TestVerifC17Child(t *testing.T) {
 					tr.Emit("Ret", "w", id, "ok", true) // the acknowledgement, logged before anything acts on it
 				case err != nil && failing:
 					tr.Emit("Ret", "w", id, "ok", false)
+				case verifC17Busy(err):
+					verifC17DieBusy(tr, "Do(write)", err)
 				default:
 					tr.Emit("ChildErr", "what", "Do(write)", "err", verifC17ErrString(err), "w", id)
 					return
@@ -155,6 +158,10 @@ func TestVerifC17Child(t *testing.T) {
 					tr.Emit("View", "r", r, "rows", rows)
 					return nil
 				})
+				if verifC17Busy(err) {
+					tr.line("ViewBusy", []any{"r", r})
+					continue
+				}
 				if err != nil {
 					tr.Emit("ChildErr", "what", "View", "err", err.Error())
 					return
@@ -182,6 +189,9 @@ func TestVerifC17Child(t *testing.T) {
 				tr.Emit("Read", "rows", rows, "off", off, "dbo", e.dbOffset)
 				return nil, nil
 			})
+			if verifC17Busy(err) {
+				verifC17DieBusy(tr, "Do(read)", err)
+			}
 			if err != nil {
 				tr.Emit("ChildErr", "what", "Do(read)", "err", err.Error())
 				return
@@ -204,6 +214,9 @@ func TestVerifC17Child(t *testing.T) {
 		cctx, cancel := context.WithTimeout(ctx, 150*time.Second)
 		defer cancel()
 		if err := e.Close(cctx); err != nil {
+			if verifC17Busy(err) {
+				verifC17DieBusy(tr, "Close", err)
+			}
 			fail("Close", err)
 		}
 		tr.Emit("Closed")
@@ -211,6 +224,21 @@ func TestVerifC17Child(t *testing.T) {
 	}
 	tr.Emit("End")
 	tr.line("Kill", []any{"at", "End", "occ", 0})
+	_ = syscall.Kill(os.Getpid(), syscall.SIGKILL)
+	select {}
+}
+
+// SQLITE_BUSY after the 5 s busy timeout is an artefact of the stand-in SQLite (rollback journal:
+// readers and the committing writer exclude each other; the WAL2 build does not) on a starved
+// machine.  A reader just skips the observation; a broken write connection ends the generation
+// with a kill, after which the files are judged as after any other kill.
+func verifC17Busy(err error) bool {
+	return err != nil && strings.Contains(err.Error(), "database is locked")
+}
+
+func verifC17DieBusy(tr *verifC17Tracer, what string, err error) {
+	tr.line("EngineBusy", []any{"what", what, "err", err.Error()})
+	tr.line("Kill", []any{"at", "EngineBusy", "occ", 0})
 	_ = syscall.Kill(os.Getpid(), syscall.SIGKILL)
 	select {}
 }
